@@ -13,6 +13,19 @@ theorem wrapU_def (w : Nat) (x : Int) : wrapU w x = x % ((2 ^ w : Nat) : Int) :=
 @[simp] theorem inRangeS64 (x : Int) : inRangeS 64 x = (decide (-9223372036854775808 ≤ x) && decide (x < 9223372036854775808)) := rfl
 @[simp] theorem mkDur_def (x : Int) : mkDur x = (x + 2147483648) % 4294967296 - 2147483648 := rfl
 
+theorem wrapS16_id (x : Int) (h : -32768 ≤ x ∧ x < 32768) : wrapS 16 x = x := by
+  simp only [wrapS16]; omega
+theorem wrapS32_id (x : Int) (h : -2147483648 ≤ x ∧ x < 2147483648) : wrapS 32 x = x := by
+  simp only [wrapS32]; omega
+theorem wrapS64_id (x : Int) (h : -9223372036854775808 ≤ x ∧ x < 9223372036854775808) : wrapS 64 x = x := by
+  simp only [wrapS64]; omega
+theorem wrapU8_id (x : Int) (h : 0 ≤ x ∧ x < 256) : wrapU 8 x = x := by
+  simp only [wrapU8]; omega
+theorem wrapU32_id (x : Int) (h : 0 ≤ x ∧ x < 4294967296) : wrapU 32 x = x := by
+  simp only [wrapU32]; omega
+theorem mkDur_id (x : Int) (h : -2147483648 ≤ x ∧ x < 2147483648) : mkDur x = x := by
+  simp only [mkDur_def]; omega
+
 theorem cdiv_pos (a b : Int) (hb : 0 < b) : cdiv a b = if 0 ≤ a then a / b else -((-a) / b) := by
   unfold cdiv
   split
